@@ -993,8 +993,88 @@ def _canonical_imports(tree):
     return tree
 
 
+# N22: one spelling of a call to a function of the same module ---------------------------------------------------------------------
+def _module_signatures(mod):
+    funcs, classes = {}, {}
+    for st in mod.body:
+        if isinstance(st, (ast.FunctionDef, ast.AsyncFunctionDef)):
+            a = st.args
+            if not st.decorator_list or all(_deco_keeps_signature(d) for d in st.decorator_list):
+                funcs[st.name] = ([x.arg for x in a.posonlyargs + a.args], bool(a.vararg), len(a.posonlyargs))
+        elif isinstance(st, ast.ClassDef):
+            ms = {}
+            for m in st.body:
+                if isinstance(m, (ast.FunctionDef, ast.AsyncFunctionDef)):
+                    a = m.args
+                    deco = [ast.unparse(d) for d in m.decorator_list]
+                    if any(d not in ("staticmethod", "classmethod") and not _deco_keeps_signature(dn) for d, dn in zip(deco, m.decorator_list)):
+                        continue
+                    params = [x.arg for x in a.posonlyargs + a.args]
+                    ms[m.name] = (params if "staticmethod" in deco else params[1:], bool(a.vararg), len(a.posonlyargs), "staticmethod" in deco or "classmethod" in deco)
+            classes[st.name] = ms
+    return funcs, classes
+
+
+def _deco_keeps_signature(d) -> bool:
+    t = ast.unparse(d)
+    return t.split("(")[0].split(".")[-1] in ("lru_cache", "cache", "wraps", "staticmethod", "classmethod")
+
+
+def _positional_calls(tree):
+    """N22: in a call to a function / method defined in the same module (by name, through self. / cls., or ClassName.method for static and class
+    methods), keyword arguments that name the next positional parameters are written positionally, in the callee's order:
+        f(a, c=3, b=2) -> f(a, 2, 3)        (def f(a, b, c))
+    Only a contiguous run is moved (a skipped parameter keeps the rest as keywords); keyword-only parameters stay keywords."""
+    if not isinstance(tree, ast.Module):
+        return tree
+    funcs, classes = _module_signatures(tree)
+    if not funcs and not classes:
+        return tree
+
+    class R(ast.NodeTransformer):
+        def __init__(self):
+            self.cls = None
+            self.shadow = []
+
+        def visit_ClassDef(self, n):
+            prev, self.cls = self.cls, (n.name if self.cls is None else self.cls)
+            self.generic_visit(n)
+            self.cls = prev
+            return n
+
+        def visit_Call(self, c):
+            self.generic_visit(c)
+            if any(isinstance(a, ast.Starred) for a in c.args) or any(k.arg is None for k in c.keywords) or not c.keywords:
+                return c
+            f = c.func
+            sig = None
+            if isinstance(f, ast.Name) and f.id in funcs:
+                sig = funcs[f.id][:2]
+            elif isinstance(f, ast.Attribute) and isinstance(f.value, ast.Name):
+                if f.value.id in ("self", "cls") and self.cls and f.attr in classes.get(self.cls, {}):
+                    sig = classes[self.cls][f.attr][:2]
+                elif f.value.id in classes and f.attr in classes[f.value.id] and classes[f.value.id][f.attr][3]:
+                    sig = classes[f.value.id][f.attr][:2]
+            if sig is None or sig[1]:
+                return c
+            params = sig[0]
+            kws = {k.arg: k for k in c.keywords}
+            moved = []
+            i = len(c.args)
+            while i < len(params) and params[i] in kws:
+                moved.append(kws[params[i]])
+                i += 1
+            if not moved:
+                return c
+            c.args = list(c.args) + [k.value for k in moved]
+            c.keywords = [k for k in c.keywords if k not in moved]
+            return c
+    return R().visit(tree)
+
+
 def normalise(tree: ast.AST) -> ast.AST:
     tree = _canonical_imports(tree)
+    tree = _positional_calls(tree)
     tree = Normalise().visit(tree)
     tree = _unroll_table_loops(tree)
     tree = _param_defaults(tree)
